@@ -203,6 +203,57 @@
   (protect (ev/close srv)) (protect (ev/close cli)) (protect (ev/close conn))
   [(if stuck [:stuck got] :finished) wres rres sres (string reply) (t :total) (t :bad)])
 
+(defn run-close-both [item]
+  # a reader and a writer are both parked on one stream (the peer neither writes nor reads), then a third fiber closes
+  # the stream: both operations must end (with nil, a partial result or an error) - none may stay suspended
+  (def [conn cli srv] (make-pair :unix (item :scratch)))
+  (def done (ev/chan 4))
+  (var wres :pending) (var rres :pending)
+  (def data (payload 0 (item :size)))
+  (when (item :reader)
+    (ev/go (fn [] (set rres (try (do (ev/read cli 64) :returned) ([e] :raised))) (ev/give done :r))))
+  (when (item :writer)
+    (ev/go (fn [] (ev/sleep 0) (set wres (try (do (ev/write cli data) :returned) ([e] :raised))) (ev/give done :w))))
+  (ev/sleep 1)
+  (def before [rres wres])
+  (ev/close cli)
+  (def expect (+ (if (item :reader) 1 0) (if (item :writer) 1 0)))
+  (var got 0)
+  (def stuck (try (do (ev/with-deadline 1000 (repeat expect (ev/take done) (++ got))) false) ([e] true)))
+  (protect (ev/close conn)) (protect (ev/close srv))
+  [(if stuck [:stuck got] :finished) before rres wres])
+
+(defn run-accept-burst [item]
+  # n clients connect in the same loop turn; the accept loop must serve every one of them
+  (def n (item :n))
+  (def path (string (item :scratch) "/c16-acc-" (os/getpid) "-" (math/floor (* 1e9 (math/random))) ".sock"))
+  (def srv (net/listen :unix path))
+  (def served @[])
+  (ev/go (fn [] (protect (net/accept-loop srv (fn [conn]
+                                              (defer (ev/close conn)
+                                                (def req (ev/read conn 64))
+                                                (array/push served (string req))
+                                                (ev/write conn (string "echo:" req))))))))
+  (def done (ev/chan n))
+  (def replies @{})
+  (for i 0 n
+    (ev/go (fn []
+             (def r (try (do
+                           (def c (net/connect :unix path))
+                           (ev/write c (string "req-" i))
+                           (def rep (ev/read c 64))
+                           (ev/close c)
+                           (string rep))
+                         ([e] [:error (string e)])))
+             (put replies i r)
+             (ev/give done i))))
+  (var got 0)
+  (def stuck (try (do (ev/with-deadline 1000 (repeat n (ev/take done) (++ got))) false) ([e] true)))
+  (ev/close srv)
+  (protect (os/rm path))
+  [(if stuck [:stuck got] :finished) n (length served)
+   (tuple ;(seq [i :range [0 n] :when (not= (get replies i) (string "echo:req-" i))] [i (get replies i :none)]))])
+
 (defn run-shared [item]
   # a child whose standard streams share one duplex stream (inetd arrangement and its variants)
   (def [conn cli srv] (make-pair :unix (item :scratch)))
@@ -244,6 +295,8 @@
              :signal (run-signal item)
              :execute (run-execute item)
              :queued (run-queued item)
+             :close-both (run-close-both item)
+             :accept-burst (run-accept-burst item)
              :duplex (run-duplex item)
              :shared (run-shared item)))
     (def c1 (verif/io-calls))
